@@ -768,6 +768,20 @@ func (fr *Frame) inlineCall(fn *ssa.Function, clo *Closure, ca *callArgs, st *St
 			}
 		}
 	}
+	// the callee's own preconditions (a closure's assumptions about its captured variables) are
+	// obligations of the code that invokes it
+	if con != nil && !con.Inline {
+		for i, cl := range con.Requires {
+			ec := child.evalCtx(st, st, fn.Pos())
+			ec.entryPar = true
+			t, err := ec.evalBool(cl.Expr)
+			if err != nil {
+				c.stale = append(c.stale, fmt.Sprintf("%s:%d: %v", cl.File, cl.Line, err))
+				continue
+			}
+			fr.oblige("requires", fmt.Sprintf("%s/%s", shortKey(fnKey(fn)), clauseLabel(cl, i)), implies(reach, t), fn.Pos(), "precondition of "+shortKey(fnKey(fn))+" (inlined): "+oneLine(cl.Text))
+		}
+	}
 	c.inlineDepth++
 	saveGuard := c.guard
 	c.guard = reach
